@@ -859,6 +859,20 @@ def part_cumsum_einsum(ctx, env, meshes):
         out = np.asarray(fn(xj, 0, method='dot', sharding=sharding))
         ctx.expect(np.isfinite(out).all() and dinoutil.relerr(out, ref) <= TOL, f'diff:{name}',
                    f'{name} sharded over z={z} differs from the unsharded sum by {dinoutil.relerr(out, ref):.3e}', inp)
+      # the summed, sharded axis need not be the leading one (repaired defect: the shard totals were gathered along
+      # axis 0 whatever the summed axis, so e.g. a (3, 8, 2) array sharded along axis 1 came back wrong by O(10))
+      if z > 1:
+        for ax, shape, spec in ((1, (3, 2 * z, 2), P(None, 'z', None)), (2, (2, 3, 2 * z), P(None, None, 'z')),
+                                (-2, (3, 2 * z, 2), P(None, 'z', None))):
+          xa = rng.standard_normal(shape)
+          sha = jax.sharding.NamedSharding(mesh, spec)
+          for name, fn, ref in (('cumsum', jnu.cumsum, np.cumsum(xa, ax)),
+                                ('reverse_cumsum', jnu.reverse_cumsum, np.flip(np.cumsum(np.flip(xa, ax), ax), ax))):
+            out = np.asarray(fn(jnp.asarray(xa), ax, method='dot', sharding=sha))
+            ctx.case(('cumsum-axis', mk, ax, name), nontrivial=True)
+            ctx.expect(np.isfinite(out).all() and dinoutil.relerr(out, ref) <= TOL, f'diff:{name}:non-leading-axis',
+                       f'{name} along axis {ax} sharded over z={z} differs from the unsharded sum by '
+                       f'{dinoutil.relerr(out, ref):.3e}', dict(inp, axis=ax, shape=list(shape), x=xa.tolist()))
     # the einsum patterns of the transforms and of the vertical products, both strategies, both orders
     k = 2
     m_, i_, j_, l_, g_ = k * xs, k * xs, k * ys, k * ys, k * z
